@@ -90,8 +90,33 @@ def run_asm(sc):
             t["pairs"].append(sorted([a, b]))
     if sc.get("cli"):
         t["cli"] = 1
-        t["clipairs"] = cli_pairs(asm, frs)
+        t["clipairs"] = cli_pairs_stdin(asm, frs) if sc["tid"] % 3 == 0 else cli_pairs(asm, frs)
+        if sc["tid"] % 3 == 0:
+            t["variant"] = (t["variant"] + "/" if t["variant"] else "") + "qc-from-stdin"
     return t
+
+
+def cli_pairs_stdin(asm, frs):
+    """asm-format --qc-overlaps reading the assembly from STDIN (no file arguments)"""
+    from click.testing import CliRunner
+    from tola.assembly.format import format_agp
+    from tola.assembly.fragment import Fragment
+    from tola.assembly.scripts import asm_format
+    n = 0
+    for s in asm.scaffolds:
+        for i, r in enumerate(s.rows):
+            if isinstance(r, Fragment):
+                n += 1
+                s.rows[i] = Fragment(r.name, r.start, r.end, r.strand, (f"P{n}",))
+    buf = io.StringIO()
+    format_agp(asm, buf)
+    try:
+        res = CliRunner(mix_stderr=False).invoke(asm_format.cli, ["--qc-overlaps"], input=buf.getvalue())
+        err = res.stderr
+    except TypeError:
+        res = CliRunner().invoke(asm_format.cli, ["--qc-overlaps"], input=buf.getvalue())
+        err = res.output
+    return [sorted([int(m.group(1)), int(m.group(2))]) for m in re.finditer(r"Overlap:\n\S+ \S+ P(\d+)\n\S+ \S+ P(\d+)", err)]
 
 
 def cli_pairs(asm, frs):
@@ -219,6 +244,11 @@ def main(tier, replay=None):
     for k in (65536, 1048576, 1000003):
         for a in rng.sample(base_asms, min(cfg["rnd"] // 4, len(base_asms))):
             asms.append({"frs": [scaled(d, k) for d in a["frs"]], "cut": a["cut"], "variant": f"grid*{k}"})
+    # contig names that a numeric-aware ordering cannot tell apart (leading zeros, a numeral against a digit): "same contig" means the same NAME
+    for a in rng.sample(base_asms, min(cfg["rnd"] // 2, len(base_asms))):
+        pair = rng.choice([("ctg_01", "ctg_1"), ("chrIV", "chr4"), ("S_I", "S_1")])
+        ren = {"a": pair[0], "b": pair[1]}
+        asms.append({"frs": [dict(d, name=ren[d["name"]]) for d in a["frs"]], "cut": a["cut"], "variant": "look-alike-names"})
     # histories: report, replace one row of the same Assembly object in place, report again
     for a in rng.sample(base_asms, min(cfg["rnd"] // 2, len(base_asms))):
         m = rng.randrange(len(a["frs"]))
